@@ -45,7 +45,11 @@ Inductive opsyn :=
 | SMemPostImm (frn imm : Z)
 | SVShift (lft : bool) (esize fimmh fimmb : Z)
 | SSysOp (fop1 fcrm fop2 crn : Z)              (* AT/DC/IC/TLBI operation as AsmJit's 14-bit id op1:CRn:CRm:op2 (CRn implied by the instruction) *)
-| SGpPair (x : bool) (f : Z).                  (* CASP register pair: <Rs>, <R(s+1)> with s even, 0..30 (the partner of R30 is ZR); field = s *)
+| SGpPair (x : bool) (f : Z)                   (* CASP register pair: <Rs>, <R(s+1)> with s even, 0..30 (the partner of R30 is ZR); field = s *)
+| SImmRsub (f w c lo hi : Z)                   (* #imm with lo <= imm <= hi, field = c - imm (fixed-point conversions: scale = 64 - fbits) *)
+| SFpImm (fabc fdefgh : Z).                    (* FMOV #fimm: a floating-point immediate with an 8-bit encoding abc:defgh *)
+(* SFpImm: the operand is an Imm holding a double (modelled as OImm p bits with p >= 256, bits = its IEEE-754 binary64 pattern) or a
+   32-bit integer (p < 256), which the assembler converts to double first; accepted iff the value is one of the 256 "imm8" numbers *)
 (* SVShift: SIMD shift by immediate: immh:immb = esize + n (left, 0 <= n < esize) or 2*esize - n (right, 1 <= n <= esize) *)
 (* SMemPostImm: [Xn|SP], #imm (post-index by the transfer size; the immediate is implied by the form) *)
 (* SVecElem: Vm.<T>[#idx]: lane < lanes, register number < 2^w (w = 4 for H lanes of by-element forms) *)
@@ -81,6 +85,13 @@ Fixpoint veclist (n : nat) (rt et id : Z) (ops : list operand) : option (list op
   end.
 
 (* one syntax element consumes a prefix of the operand list and yields field bindings *)
+(* IEEE-754 binary64 pattern of a non-zero integer (exact for |v| < 2^53) *)
+Definition int_to_f64 (v : Z) : Z :=
+  let a := Z.abs v in let e := Z.log2 a in
+  (if v <? 0 then 2 ^ 63 else 0) + (1023 + e) * 2 ^ 52 + (a - 2 ^ e) * 2 ^ (52 - e).
+(* the double an Imm operand stands for in a floating-point position: its own bits (double Imm, p >= 256) or the converted integer *)
+Definition fimm_bits (p v : Z) : Z := if 256 <=? p then v else if v =? 0 then 0 else int_to_f64 v.
+
 Definition bind1 (s : opsyn) (ops : list operand) : option (env * list operand) :=
   match s, ops with
   | SGp x hi f, OGp x' id :: r =>
@@ -181,6 +192,13 @@ Definition bind1 (s : opsyn) (ops : list operand) : option (env * list operand) 
   | SGpPair x f, OGp x1 id1 :: OGp x2 id2 :: r =>
       if Bool.eqb x x1 && Bool.eqb x x2 && (0 <=? id1) && (id1 <=? 30) && Z.even id1 && (id2 =? (if id1 =? 30 then 63 else id1 + 1))
       then Some ([(f, id1)], r) else None
+  | SImmRsub f w c lo hi, OImm _ v :: r => if (lo <=? v) && (v <=? hi) then Some ([(f, c - v)], r) else None
+  | SFpImm fabc fdefgh, OImm p v :: r =>
+      let b := fimm_bits p v in
+      let i := encode_fp_imm8 9 6 48 b in
+      (* the first conjunct is the assembler's is_int32() test; 0 <= b < 2^64 and 0 <= i < 256 always hold (kept so that ranges need no lemma) *)
+      if ((256 <=? p) || ((- 2 ^ 31 <=? v) && (v <? 2 ^ 31))) && (0 <=? b) && (b <? 2 ^ 64) && is_fp_imm8 9 6 48 b && (0 <=? i) && (i <? 256)
+      then Some ([(fabc, i / 32); (fdefgh, i mod 32)], r) else None
   | SVShift lft esize fimmh fimmb, OImm _ n :: r =>
       if (if lft then (0 <=? n) && (n <? esize) else (1 <=? n) && (n <=? esize)) then
         let v := if lft then esize + n else 2 * esize - n in
@@ -250,7 +268,8 @@ Definition syn_inv (s : opsyn) : bool :=
   | SGp _ _ _ | SImmU _ _ _ | SImmS _ _ | SCond _ _ | SRel _ _ _ | SMemBase _ | SMemOff _ _ _ _ _ _ | SMemLit _ _ | SShift _ _ _ _
   | SVec _ _ _ _ | SVecElem _ _ _ _ _ _
   | SGpDup _ _ _ _ | SImmLt _ _ _ | SSysReg _ | SImmConst _ | SMemPostImm _ _ | SMemPostReg _ _ | SMemIdx _ _ _ _ _ | SMemPair _ _ _ _ _ _ _
-  | SVShift _ _ _ _ | SMovW _ _ _ | SBitfield _ _ _ _ | SAddImm _ _ | SExtReg _ _ _ _ | SLogImm _ _ | SVecList _ _ _ _ | SGpPair _ _ | SSysOp _ _ _ _ => true
+  | SVShift _ _ _ _ | SMovW _ _ _ | SBitfield _ _ _ _ | SAddImm _ _ | SExtReg _ _ _ _ | SLogImm _ _ | SVecList _ _ _ _ | SGpPair _ _ | SSysOp _ _ _ _
+  | SImmRsub _ _ _ _ _ | SFpImm _ _ => true
   end.
 
 (* the n registers of a list starting at id *)
@@ -302,6 +321,8 @@ Definition unbind1 (s : opsyn) (g : Z -> Z) : list operand :=
   | SVecList n rt et f => veclist_ops n rt et (g f)
   | SGpPair x f => [OGp x (g f); OGp x (if g f =? 30 then 63 else g f + 1)]
   | SSysOp fop1 fcrm fop2 crn => [OImm 0 (g fop1 * 2048 + crn * 128 + g fcrm * 8 + g fop2)]
+  | SImmRsub f _ c _ _ => [OImm 0 (c - g f)]
+  | SFpImm fabc fdefgh => [OImm 256 (vfp_expand_imm 64 (g fabc * 32 + g fdefgh))]
   end.
 
 (* canonical form of the operands a syntax element consumed: don't-care parts (predicate of a plain immediate, index fields of
@@ -316,7 +337,7 @@ Definition canon1 (s : opsyn) (ops : list operand) : option (list operand * list
   | SShift _ _ _ _, [] => Some ([OImm 0 0], [])
   | SShift _ _ _ _, o :: r => Some ([o], r)
   | (SGpDup _ _ _ _ | SMemPostReg _ _ | SMemIdx _ _ _ _ _), o :: r => Some ([o], r)
-  | (SImmLt _ _ _ | SSysReg _ | SImmConst _), OImm _ v :: r => Some ([OImm 0 v], r)
+  | (SImmLt _ _ _ | SSysReg _ | SImmConst _ | SImmRsub _ _ _ _ _), OImm _ v :: r => Some ([OImm 0 v], r)
   | SMemPostImm _ _, OMem b None _ _ off m :: r => Some ([OMem b None 0 0 off m], r)
   | SMemPair _ _ _ _ _ _ nf, OMem b None _ _ off m :: r => Some ([OMem b None 0 0 off (if nf && (off =? 0) then 0 else m)], r)
   | SVShift _ _ _ _, OImm _ n :: r => Some ([OImm 0 n], r)
@@ -343,6 +364,7 @@ Definition canon1 (s : opsyn) (ops : list operand) : option (list operand * list
       match veclist n rt et id ops with Some r => Some (veclist_ops n rt et id, r) | None => None end
   | SGpPair _ _, o1 :: o2 :: r => Some ([o1; o2], r)
   | SSysOp _ _ _ _, OImm _ v :: r => Some ([OImm 0 v], r)
+  | SFpImm _ _, OImm p v :: r => Some ([OImm 256 (fimm_bits p v)], r)      (* the double the assembler works with *)
   | _, _ => None
   end.
 
@@ -403,6 +425,8 @@ Definition syn_fields (s : opsyn) : list (Z * Z) :=
   | SVShift _ _ fimmh fimmb => [(fimmh, 4); (fimmb, 3)]
   | SGpPair _ f => [(f, 5)]
   | SSysOp fop1 fcrm fop2 _ => [(fop1, 3); (fcrm, 4); (fop2, 3)]
+  | SImmRsub f w _ _ _ => [(f, w)]
+  | SFpImm fabc fdefgh => [(fabc, 3); (fdefgh, 5)]
   end.
 
 Definition syn_wf (s : opsyn) : bool :=
@@ -417,6 +441,7 @@ Definition syn_wf (s : opsyn) : bool :=
   | SImmLt _ w lim => (0 <=? w) && (w <=? 32) && (0 <=? lim) && (lim <=? 2 ^ w)
   | SBitfield kind size _ _ => (0 <=? kind) && (kind <=? 2) && ((size =? 32) || (size =? 64))
   | SSysOp _ _ _ crn => (0 <=? crn) && (crn <? 16)
+  | SImmRsub _ w c lo hi => (0 <=? w) && (w <=? 32) && (0 <=? c - hi) && (c - lo <? 2 ^ w)
   | SVShift _ esize _ _ => (esize =? 8) || (esize =? 16) || (esize =? 32) || (esize =? 64)
   | SVec _ _ _ w => (0 <=? w) && (w <=? 5)
   | SVecElem _ _ w _ widx lanes => (0 <=? w) && (w <=? 5) && (0 <=? widx) && (widx <=? 4) && (0 <=? lanes) && (lanes <=? 2 ^ widx)
